@@ -129,7 +129,7 @@ def run_case(case):
         for seq in case["seqs"]:
             for defaults in ({}, {"X-A": "d"}, {"x-a": "d"}):
                 for req_headers in ({}, {"X-A": "r"}):
-                    for caller in (False, True):
+                    for caller in (False, True, "empty-dict", "empty-list", "zero"):
                         for bt in (None, "bt"):
                             wraps = ["composite"] if len(seq) != 1 else ["direct", "composite"]
                             for wrap in wraps:
@@ -146,9 +146,10 @@ def run_case(case):
                                     kwargs = {}
                                     if rh:
                                         kwargs["headers"] = dict(rh)
+                                    CALLER_JSON = {True: {"a": 1}, "empty-dict": {}, "empty-list": [], "zero": 0}
                                     if caller:
                                         kwargs["params"] = {"q": "1"}
-                                        kwargs["json"] = {"a": 1}
+                                        kwargs["json"] = CALLER_JSON[caller]
                                     captured.clear()
                                     n += 1
                                     lab = f"{label}|{rname}"
@@ -211,8 +212,9 @@ def run_case(case):
                                             body = json.loads(r.content)
                                         except Exception:
                                             body = None
-                                        if body != {"a": 1}:
-                                            add("passthrough", "caller's JSON body changed", f"body={r.content[:80]!r}")
+                                        if body != CALLER_JSON[caller] or r.content == b"":
+                                            add("passthrough", "caller's JSON body changed or dropped" + ("" if caller is True else " (empty / falsy JSON value)"),
+                                                f"body={r.content[:80]!r} expected {CALLER_JSON[caller]!r}")
                                     else:
                                         extra = {qk: qv for qk, qv in qs.items() if qk not in eq}
                                         if extra:
